@@ -6,7 +6,8 @@ two samples 0.5 s apart, LIDAR_TOP calibrated at the ego origin plus a camera el
 rotated by the unit quaternions (3,0,0,4)/5 and (1,2,2,4)/5, a bus present in both samples (so the
 second annotation has a history) and a pedestrian of an unregistered category in the first only.
 `exTables2D` adds a second camera, traffic-light categories, four instances sharing two regulatory
-element ids and five 2-D annotations (one on a sweep image that no sample exposes).
+element ids and five 2-D annotations (one on a sweep image that no sample exposes). `exTablesN1` calibrates
+two traffic-light cameras `q` and `-q` (the input of the repaired finding C16-N1).
 -/
 namespace PEval.Dataset
 open PEval
@@ -43,6 +44,14 @@ def exTables2D : Tables :=
       ⟨"o3", "sd4", "j2", "c4", [], 1, 2, 3, 4⟩,
       ⟨"o4", "sd3", "j3", "c4", [], 1, 1, 2, 2⟩] }
 
+/-- the input of the repaired finding C16-N1: `exTables2D` with its traffic-light camera calibrated
+`q = (4,0,0,3)/5` and a second traffic-light camera calibrated `-q` (one and the same rotation) -/
+def exTablesN1 : Tables :=
+  { exTables2D with
+    sensors := exTables2D.sensors ++ [⟨"senX", "CAM_TRAFFIC_LIGHT_FAR"⟩],
+    calibratedSensors := exTables.calibratedSensors ++
+      [⟨"csN", "senN", ⟨1, 0, 2⟩, ⟨4/5, 0, 0, 3/5⟩⟩, ⟨"csX", "senX", ⟨1, 0, 3⟩, ⟨-4/5, 0, 0, -3/5⟩⟩] }
+
 def exS0 : Sample := ⟨"s0", 1600000000000000, 1600000000⟩
 def exS1 : Sample := ⟨"s1", 1600000000500000, 3200000001 / 2⟩
 def exSd1 : SampleData := ⟨"sd1", "s1", "e1", "csT", true⟩
@@ -61,6 +70,30 @@ theorem all_ok {α β} {f : α → Except Err β} {l : List α}
   cases hf : f a with
   | ok b => exact ⟨b, rfl⟩
   | error e => simp [hf, Except.toBool] at this
+
+/-- the `sensors` clause of well-formedness from a decidable check -/
+theorem sensors_of_all {T : Tables}
+    (h : T.calibratedSensors.all (fun cs =>
+      match lookup Sensor.token T.sensors cs.sensorToken with
+      | .error _ => false
+      | .ok s => (Enums.frameFromValue s.channel).toBool) = true) :
+    ∀ cs ∈ T.calibratedSensors, ∃ sen m, lookup Sensor.token T.sensors cs.sensorToken = .ok sen ∧
+      Enums.frameFromValue sen.channel = .ok m := by
+  intro cs hcs
+  have := List.all_eq_true.1 h cs hcs
+  cases hl : lookup Sensor.token T.sensors cs.sensorToken with
+  | error e => simp [hl] at this
+  | ok sen =>
+    cases hf : Enums.frameFromValue sen.channel with
+    | error e => simp [hl, hf, Except.toBool] at this
+    | ok m => exact ⟨sen, m, rfl, hf⟩
+
+/-- the `rotations` clause of well-formedness from a decidable check -/
+theorem rotations_of_all {T : Tables}
+    (h : T.calibratedSensors.all (fun cs => cs.rotation != Quat.zero) = true) :
+    ∀ cs ∈ T.calibratedSensors, cs.rotation ≠ Quat.zero := by
+  intro cs hcs
+  simpa using List.all_eq_true.1 h cs hcs
 
 theorem exTables_wellFormed : WellFormed exTables where
   samples_ne := by decide
@@ -95,12 +128,14 @@ theorem exTables_wellFormed : WellFormed exTables where
     cases hl : lookup Annotation.token exTables.annotations a.next with
     | ok b => exact ⟨b, rfl⟩
     | error e => simp [hl, Except.toBool, hne] at this
-  sensors := ⟨["LIDAR_TOP", "CAM_FRONT"], by decide +kernel⟩
+  sensors := sensors_of_all (by decide +kernel)
+  rotations := rotations_of_all (by decide +kernel)
 
 theorem exTables2D_wellFormed : WellFormed2D exTables2D where
   samples_ne := by decide
   ego := all_ok (by decide +kernel)
-  sensors := ⟨["LIDAR_TOP", "CAM_FRONT", "CAM_TRAFFIC_LIGHT_NEAR"], by decide +kernel⟩
+  sensors := sensors_of_all (by decide +kernel)
+  rotations := rotations_of_all (by decide +kernel)
   oann_category := all_ok (by decide +kernel)
   oann_attributes := by
     intro o ho
@@ -111,6 +146,62 @@ theorem exTables2D_wellFormed : WellFormed2D exTables2D where
   oann_instance := by
     intro o ho
     have h : exTables2D.objectAnns.all (fun o => exTables2D.instances.any (fun i => i.token == o.instanceToken)) = true := by
+      decide +kernel
+    have := List.all_eq_true.1 h o ho
+    obtain ⟨i, hi, hit⟩ := List.any_eq_true.1 this
+    exact ⟨i, hi, by simpa using hit⟩
+
+theorem exTablesN1_wellFormed : WellFormed exTablesN1 where
+  samples_ne := by decide
+  lidar := all_ok (by decide +kernel)
+  ego := all_ok (by decide +kernel)
+  calib := all_ok (by decide +kernel)
+  ann_sample := all_ok (by decide +kernel)
+  ann_instance := all_ok (by decide +kernel)
+  inst_category := all_ok (by decide +kernel)
+  ann_attributes := by
+    intro a ha
+    exact all_ok (f := fun t => lookup Named.token exTablesN1.attributes t)
+      (List.all_eq_true.1 (by decide +kernel :
+        exTablesN1.annotations.all (fun a => a.attributeTokens.all
+          (fun t => (lookup Named.token exTablesN1.attributes t).toBool)) = true) a ha)
+  ann_visibility := fun _ => all_ok (by decide +kernel)
+  ann_prev := by
+    intro a ha hne
+    have h : exTablesN1.annotations.all (fun a =>
+        a.prev == "" || (lookup Annotation.token exTablesN1.annotations a.prev).toBool) = true := by
+      decide +kernel
+    have := List.all_eq_true.1 h a ha
+    cases hl : lookup Annotation.token exTablesN1.annotations a.prev with
+    | ok b => exact ⟨b, rfl⟩
+    | error e => simp [hl, Except.toBool, hne] at this
+  ann_next := by
+    intro a ha hne
+    have h : exTablesN1.annotations.all (fun a =>
+        a.next == "" || (lookup Annotation.token exTablesN1.annotations a.next).toBool) = true := by
+      decide +kernel
+    have := List.all_eq_true.1 h a ha
+    cases hl : lookup Annotation.token exTablesN1.annotations a.next with
+    | ok b => exact ⟨b, rfl⟩
+    | error e => simp [hl, Except.toBool, hne] at this
+  sensors := sensors_of_all (by decide +kernel)
+  rotations := rotations_of_all (by decide +kernel)
+
+theorem exTablesN1_wellFormed2D : WellFormed2D exTablesN1 where
+  samples_ne := by decide
+  ego := all_ok (by decide +kernel)
+  sensors := sensors_of_all (by decide +kernel)
+  rotations := rotations_of_all (by decide +kernel)
+  oann_category := all_ok (by decide +kernel)
+  oann_attributes := by
+    intro o ho
+    exact all_ok (f := fun t => lookup Named.token exTablesN1.attributes t)
+      (List.all_eq_true.1 (by decide +kernel :
+        exTablesN1.objectAnns.all (fun o => o.attributeTokens.all
+          (fun t => (lookup Named.token exTablesN1.attributes t).toBool)) = true) o ho)
+  oann_instance := by
+    intro o ho
+    have h : exTablesN1.objectAnns.all (fun o => exTablesN1.instances.any (fun i => i.token == o.instanceToken)) = true := by
       decide +kernel
     have := List.all_eq_true.1 h o ho
     obtain ⟨i, hi, hit⟩ := List.any_eq_true.1 this
